@@ -168,9 +168,10 @@ AllReleased(m) ==
 SEnd(m, e) ==
   IF e.why \in {"crash", "crash-poison", "abort", "killed"}
   THEN IF m.sinceReap THEN V(m, IF m.reapNoInt THEN "C11:crash-reap-without-interest" ELSE "C11:crash") ELSE m
-  ELSE IF e.why = "hang"
-  THEN (* the loop sleeps for good: a closed request's child must not be left
-          running (it has to be signalled until it ends) nor left a zombie *)
+  ELSE IF e.why = "hang" \/ (e.why = "ok" /\ ~m.quit)
+  THEN (* the loop sleeps for good, or has nothing registered any more and returned: a closed
+          request's child must not be left running (it has to be signalled until it ends) nor
+          left a zombie *)
        LET cl == {o \in Obj : m.pop[o].closed}
            m1 == Chk(m, cl # {}, \A o \in cl : m.pop[o].pid \notin m.alive, "C19:abandoned")
        IN Chk(m1, cl # {}, \A o \in cl : m.pop[o].pid \notin m.term, "C19:zombie")
